@@ -64,9 +64,10 @@ def execute(cmd, filename, timeout):
         proc.kill()
         logging.debug(f'[!!] timeout: terminated after {timeout:.2f} seconds')
         return RunInfo(proc.returncode, None, None, timeout)
-    # the command may print arbitrary bytes
-    return RunInfo(proc.returncode, out.decode(errors='backslashreplace'),
-                   err.decode(errors='backslashreplace'), runtime)
+    # the command may print arbitrary bytes: undecodable ones are kept as
+    # lone surrogates, so that different outputs remain different
+    return RunInfo(proc.returncode, out.decode(errors='surrogateescape'),
+                   err.decode(errors='surrogateescape'), runtime)
 
 
 def matches_golden(golden, run, ignore_out, ignore_err, match_out, match_err):
